@@ -829,7 +829,7 @@ package decoder
 
 // in-place unescape: reads only the validated body, writes only inside it and never ahead of the read position
 //@ func unescapeString(buf) (n)
-//@   props C17 C06 C07 C12
+//@   props C17 C06 C07
 //@   let p0 := ptrOf(buf)
 //@   define strRun(p0, 0) == 0 && (forall k :: 0 <= k ==> strRun(p0, k + 1) == strStep(strRun(p0, k), M(p0 + k)))
 //@   requires len(buf) >= 1 && len(buf) <= cap(buf) && strBody(p0, len(buf))
@@ -851,7 +851,7 @@ package decoder
 // The string scanner: what it returns is a validated body (no raw control character, only valid
 // escapes), unescaped in place; it writes nothing outside the body it scanned.
 //@ func (*stringDecoder).decodeByte(d, buf, cursor) (res, c, err)
-//@   props C05 C17 C06 C07 C12 C20 C11
+//@   props C05 C17 C06 C07
 //@   requires d != nil && bufOK(buf, cursor)
 //@   define forall s, k :: strRun(s, 0) == 0 && (0 <= k ==> strRun(s, k + 1) == strStep(strRun(s, k), M(s + k)))
 //@   ensures err == nil ==> cursor < c && c < len(buf)
